@@ -24,8 +24,11 @@ CHECKS = {
 }
 
 PART = ("PARTIAL proof level: the theorems cover the atomic layer (emplace/extract of one value: every bit length > 0, bit position, both byte orders, "
-        "any previous message content, all signed encodings, unsigned, byte fields, latin-1 strings). The composite statement over whole parameter trees "
-        "(structures, fields, dynamic-length types, positions) is NOT a theorem: it is decided by the model/implementation correspondence on generated "
+        "any previous message content, all signed encodings, unsigned, byte fields, latin-1 strings) and, at message level (Proofs/FlatProofs.v, about the model's "
+        "real entry points encode_msg / decode_msg / static_bits_msg), every message which is a sequence of any number of standard-length VALUE parameters with "
+        "implicit positions: encode succeeds without overlap warning, decode returns the encoded values, the length is the static length "
+        "(C01_flat_message_roundtrip, C08_flat_length_is_static). The composite statement over general parameter trees "
+        "(structures, fields, dynamic-length types, explicit / bit positions) is NOT a theorem: it is decided by the model/implementation correspondence on generated "
         "ODX documents plus the property's direct oracle on the implementation. ")
 CODEC_NOTE = TB + ("Model scope: strict mode; int/bytefield/string base types (no floats), STANDARD/MIN-MAX/LEADING-LENGTH/PARAM-LENGTH types, IDENTICAL and integer "
         "LINEAR compu, structures, 4 field kinds, 7 parameter kinds; multiplexer, tables, DTC, env-data not modelled. String codecs re-implemented in Gallina; "
